@@ -90,80 +90,6 @@ func Recognised(prog []Ins) bool {
 	return true
 }
 
-var arity = map[string]int{"true": 0, "false": 0, "last": 0, "position": 0, "string": 1, "number": 1, "boolean": 1, "not": 1,
-	"floor": 1, "ceiling": 1, "round": 1, "string-length": 1, "normalize-space": 1, "concat": 2, "contains": 2, "starts-with": 2,
-	"substring-before": 2, "substring-after": 2, "re-match": 2, "substring": 3, "translate": 3}
-
-// Consumes walks the specification's program (not the listing) and tells whether some instruction
-// converts a multi-valued leaf-list (operand of a function or of arithmetic) and whether some
-// instruction consumes the string 'Infinity' / '-Infinity'.  Used to recognise the two recorded C01
-// findings when a run can only be judged by its result (no instruction-level trace).  Programs
-// with predicates are not analysed (both answers false).
-func Consumes(prog []Ins) (multiConv, infStr bool) {
-	type slot int // 0 other, 1 multi leaf, 2 infinity string
-	var st []slot
-	last := ""
-	pop := func(n int) []slot {
-		if n > len(st) {
-			n = len(st)
-		}
-		out := st[len(st)-n:]
-		st = st[:len(st)-n]
-		return out
-	}
-	for _, in := range prog {
-		switch in.I {
-		case "PredicatesStart", "PREDSTART":
-			return false, false
-		case "numpush":
-			st = append(st, 0)
-		case "litpush":
-			if t := strings.TrimSpace(in.S); t == "Infinity" || t == "-Infinity" {
-				st = append(st, 2)
-			} else {
-				st = append(st, 0)
-			}
-		case "name":
-			last = in.S
-		case "evalLocPath":
-			if last == "vmulti" || last == "vm2" || last == "vone" {
-				st = append(st, 1)
-			} else {
-				st = append(st, 0)
-			}
-			last = ""
-		case "bltin":
-			for _, a := range pop(arity[in.S]) {
-				multiConv = multiConv || a == 1
-				infStr = infStr || a == 2
-			}
-			st = append(st, 0)
-		case "add", "sub", "mul", "div", "mod":
-			for _, a := range pop(2) {
-				multiConv = multiConv || a == 1
-				infStr = infStr || a == 2
-			}
-			st = append(st, 0)
-		case "negate":
-			for _, a := range pop(1) {
-				multiConv = multiConv || a == 1
-				infStr = infStr || a == 2
-			}
-			st = append(st, 0)
-		case "eq", "ne", "lt", "le", "gt", "ge", "and", "or":
-			for _, a := range pop(2) {
-				infStr = infStr || a == 2
-			}
-			st = append(st, 0)
-		case "store":
-			for _, a := range pop(1) {
-				infStr = infStr || a == 2
-			}
-		}
-	}
-	return
-}
-
 // Val is the interchange form of a value (VB/VN/VS/VAbsent/VMulti of XPathValues.tla).
 type Val struct {
 	T  string   `json:"t"`
